@@ -30,9 +30,12 @@ YDOC3 = "---\n# only comment after start\nx: &anc {p: 1}\ny: *anc\nb: [2, 2, 1]\
 YDOC4 = "# only a comment\n"
 YDOC6 = "n: [1, 2]\na: 1\n---\nn: [10]\na: 2\n---\nn: [5, 5]\na: 3\n"
 YDOC7 = "n: [4]\na: 7\n"
+YDOC8 = "a: x\ns: double\ne: .b style |= \"single\"\nb: y\nt: single\ng: \"!!str\"\n"
+YDOC9 = "s: hello\np: \"^h\"\nk: s\nl: [a, b, c]\nn: 1\na: x\nb: y\nt: single\ng: \"!!int\"\ne: .a tag = \"!!x\"\n"
+YDOC10 = "s: hello\np: z$\nk: q\nl: [x, y, z]\nn: 2\na: x\nb: y\nt: double\ng: \"!!str\"\ne: .b anchor |= \"k\"\n"
 YDOC5 = "y: *anc\n"      # alias without anchor: an error unless anchors leak from an earlier stream
 INPUTS = {
-    "yaml": [YDOC1, YDOC2, YDOC3, YDOC4, YDOC5, YDOC6, YDOC6, YDOC7, ""],
+    "yaml": [YDOC1, YDOC2, YDOC3, YDOC4, YDOC5, YDOC6, YDOC6, YDOC7, YDOC8, YDOC9, YDOC10, ""],
     "json": ['{"a": 1, "b": [2, 1], "c": {"y": 1, "x": 2}, "s": "j"}', '{"a": 5, "b": [], "c": {}, "s": ""} {"a": 6, "b": [1], "c": {"q": 1}, "s": "k"}', '{"a": 1} {bad'],
     "xml": ["<r><a>1</a><b>x</b><b>y</b><c><y>1</y></c><s>t</s></r>", "<?xml version=\"1.0\"?>\n<!-- c -->\n<a>2</a>", "<a>1</a><b>"],
     "props": ["a = 1\nb.0 = x\nc.y = 2\ns = p\n", "# c\na=2\n"],
@@ -56,6 +59,18 @@ EXPRS = [
     ".k = (1 | . *= 2)", "with(.k; . = (3 | . -= 1))", ".k = (.a as $v | (100 | . -= $v))",
     ".n[] as $i ireduce (0; . += $i)", ".k = (1 | . *= 2)",
 ]
+# (a) operators whose `X = e` and `X |= e` forms come from one lexer rule; the second list parses while evaluating
+FAMILIES = ["style", "tag", "anchor", "line_comment", "head_comment", "foot_comment", "alias"]
+def variant_exprs(x):
+    return [".a %s = .t" % x, ".b %s |= \"single\"" % x, ".a %s = .g" % x, ".b %s |= . + \"q\"" % x, ".a %s |= \"!!str\"" % x, ".b %s = .s" % x]
+RUNTIME_PARSE = [".a style = .s | eval(.e)", ".a style = .s | .c = \"\\(.b style |= parent.t | .b)\"",
+                 ".a tag |= \"!!\" + . | .c = \"\\(.b tag = .g | .b)\"", ".a line_comment = .s | .c = \"\\(.b line_comment |= \"z\" | .b)\"",
+                 "eval(.e)", ".c = \"\\(.a anchor = .t | .a | anchor)\"", ".a anchor |= \"k\" | eval(.e)"]
+# (b) operator arguments taken from the document
+DATADEP = [".p as $p | .s | test($p)", ".p as $p | .s | sub($p; \"X\")", ".p as $p | .s | match($p)", ".p as $p | .s | capture($p)",
+           ".s | test(parent.p)", ".k as $k | has($k)", ".k as $k | pick([$k])", ".k as $k | omit([$k])", ".k as $x | .l | join($x)",
+           ".k as $x | .s | split($x)", ".n as $n | .l | .[$n:]", ".n as $n | [[1, [2, [3]]]] | flatten($n)", ".p as $p | [.l[] | select(test($p))]"]
+SPECIAL_DOCS = [YDOC8, YDOC9, YDOC10]
 GENERIC = [".", ".a", ".a, .s", "keys", "to_entries", ".s | envsubst(ne)", "with(envsubst)", ".a = 5", "del(.a)", ". as $x | $x.a",
            "... comments=\"\"", "explode(.)", "sort_keys(.)", ".[0]", "length", ".. | select(tag == \"!!str\")", "to_json(0)", "sort_by(.a)"]
 LOADS = [("load(\"%s\").a", "ld1.yml", "a: L1\n"), ("load(\"%s\").a", "ld2.yml", "a: L2\n---\na: L2b\n"),
@@ -371,7 +386,35 @@ def run(chk):
         [st(".k = (1 | . *= 2)", YDOC7, out="json"), st(".k = (1 | . *= 2)", YDOC7, out="json", all=True), st(".k = (1 | . *= 2)", YDOC7, out="json")],
         [st(".a as $v | (0 | . += $v)", YDOC6, reuse_tree=False), st(".a as $v | (0 | . += $v)", YDOC7, reuse_tree=False)],
     ]
+    fixed += [
+        [st(".a style = .t", YDOC8), st(".b style |= \"single\"", YDOC8, reuse_tree=False), st(".a style = .t", YDOC8)],
+        [st(".b tag |= \"!!str\"", YDOC9), st(".a tag = .g", YDOC9, reuse_tree=False), st(".b tag |= \"!!str\"", YDOC9)],
+        [st(".a style = .s | eval(.e)", YDOC8), st(".a style = .s | eval(.e)", YDOC8)],
+        [st(".p as $p | .s | test($p)", YDOC9), st(".p as $p | .s | test($p)", YDOC10), st(".p as $p | .s | test($p)", YDOC9)],
+        [st(".p as $p | .s | sub($p; \"X\")", YDOC10), st(".p as $p | .s | sub($p; \"X\")", YDOC9)],
+    ]
     histories = list(fixed)
+
+    def targeted():
+        r = rng.random()
+        k = rng.randrange(3, kmax + 1)
+        h = []
+        if r < 0.5:
+            # one operator family: trees parsed early, re-evaluated after parses of the other variant
+            fam = rng.choice(FAMILIES)
+            pool_e = variant_exprs(fam) + (rng.sample(RUNTIME_PARSE, 2) if rng.random() < 0.6 else [])
+            for _ in range(k):
+                h.append(st(rng.choice(pool_e), rng.choice(SPECIAL_DOCS), reuse_tree=rng.random() < 0.7,
+                            all=rng.random() < 0.2, out=rng.choice(["yaml", "yaml", "json"])))
+        else:
+            es = rng.sample(DATADEP, rng.randrange(1, 3))
+            for _ in range(k):
+                h.append(st(rng.choice(es), rng.choice([YDOC9, YDOC10, YDOC9 + "---\n" + YDOC10]), reuse_tree=rng.random() < 0.8,
+                            all=rng.random() < 0.2, out=rng.choice(["yaml", "json"])))
+        return h
+    ntarget = (nh - len(histories)) // 4
+    for _ in range(ntarget):
+        histories.append(targeted())
     while len(histories) < nh:
         k = rng.randrange(2, kmax + 1)
         # a small alphabet per history so that repetition and re-use actually happen
@@ -457,6 +500,15 @@ def run(chk):
               {"expr": pool.load_exprs[1], "input": YDOC1, "in": "yaml", "out": "yaml", "all": False, "reuse_tree": False, "reuse_dec": False}),
              ({"expr": ".s | envsubst(ne)", "input": YDOC1, "in": "yaml", "out": "yaml", "all": False, "reuse_tree": False, "reuse_dec": False},
               {"expr": ".s | envsubst(nu)", "input": YDOC1, "in": "yaml", "out": "yaml", "all": False, "reuse_tree": False, "reuse_dec": False})] + pairs
+    # the two assign variants of one lexer rule, parsed and evaluated concurrently; run-time parses
+    for fam in FAMILIES:
+        ve = variant_exprs(fam)
+        for ea_, eb_ in ((ve[0], ve[1]), (ve[2], ve[3]), (ve[4], ve[5])):
+            pairs.append(({"expr": ea_, "input": YDOC8, "in": "yaml", "out": "yaml", "all": False, "reuse_tree": False, "reuse_dec": False},
+                          {"expr": eb_, "input": YDOC9, "in": "yaml", "out": "yaml", "all": False, "reuse_tree": False, "reuse_dec": False}))
+    for e1 in RUNTIME_PARSE[:4]:
+        pairs.append(({"expr": e1, "input": YDOC8, "in": "yaml", "out": "yaml", "all": False, "reuse_tree": False, "reuse_dec": False},
+                      {"expr": ".a style = .t", "input": YDOC10, "in": "yaml", "out": "yaml", "all": False, "reuse_tree": False, "reuse_dec": False}))
     rounds = 40 if thorough else 25
     creqs = [{"op": "concurrent", "a": wire(dict(a, pf=0)), "b": wire(dict(b, pf=0)), "n": rounds, "deadline_ms": 120000} for a, b in pairs]
     cres = vlib.yqh_parallel(creqs)
